@@ -84,6 +84,16 @@ def translate() -> str:
             tdir = g._generator_directory / "templates"
             if any(re.search(r"\.cpp\.", p.read_text(errors="replace")) for p in tdir.rglob("*") if p.is_file()):
                 readers.append(g.key)
+    props = cfgsys.section_props("generate")
+    required = [(g, cfgsys.resolve(props[g]).get("required", [])) for _, gs in targets for g in gs]
+    cases = cfgsys.schema()["$defs"]["Case"]["enum"]
+    ident_defaults = []
+    for _, gs in targets:
+        for g in gs:
+            ident = cfgsys.resolve(props[g]).get("properties", {}).get("identifier")
+            if ident:
+                for kind, v in (ident.get("default") or {}).items():
+                    ident_defaults.append((g, kind, v if isinstance(v, str) else v.get("style")))
     src = f"""import PydjinniModel.Sys.Config
 open Pydjinni.Sys
 /-! generated by harness/props/c17.py from the live plug-in registry and settings schema -/
@@ -96,6 +106,9 @@ def liveEnvPrefix : String := {lean_str(mc.get('env_prefix') or '')}
 def liveEnvDelimiter : String := {lean_str(mc.get('env_nested_delimiter') or '')}
 def liveCaseSensitive : Bool := {'true' if mc.get('case_sensitive') else 'false'}
 def liveExtraTop : String := {lean_str(str(mc.get('extra')))}
+def liveRequired : List (String × List String) := {lean_list(f'({lean_str(g)}, {lean_list(lean_str(r) for r in rs)})' for g, rs in required)}
+def liveCases : List String := {lean_list(lean_str(c) for c in cases)}
+def liveIdentifierDefaults : List (String × String × String) := {lean_list(f'({lean_str(g)}, {lean_str(k)}, {lean_str(str(v))})' for g, k, v in ident_defaults)}
 
 theorem targets_table : liveTargets = targetTable := by decide
 theorem sections_table : liveSections = sections := by decide
@@ -104,6 +117,10 @@ theorem cpp_readers : liveCppReaders = cppReaders.map (·.1) := by decide
 theorem env_prefix : liveEnvPrefix.toList = envPrefix := by decide
 theorem env_delimiter : liveEnvDelimiter = "__" ∧ liveCaseSensitive = false := by decide
 theorem top_level_extra_forbidden : liveExtraTop = "forbid" := by decide
+/-- every generator section has a required output directory: an empty section is an insufficient configuration -/
+theorem out_required : liveRequired.all (fun p => p.2.contains "out") = true := by decide
+/-- the defaults of the identifier styles are members of the style enumeration -/
+theorem identifier_defaults_valid : liveIdentifierDefaults.all (fun p => liveCases.contains p.2.2) = true := by decide
 /-- every key of the live settings schema satisfies the hypotheses of `sources_equivalent` on keys -/
 theorem keys_spellable : liveKeys.all (fun k => envSafeKey k.toList && !k.toList.contains '.' && !k.toList.contains '=') = true := by decide +kernel
 """
@@ -111,7 +128,7 @@ theorem keys_spellable : liveKeys.all (fun k => envSafeKey k.toList && !k.toList
 
 
 OBLIGATIONS = ["targets_table", "sections_table", "generator_sections", "cpp_readers", "env_prefix", "env_delimiter",
-               "top_level_extra_forbidden", "keys_spellable"]
+               "top_level_extra_forbidden", "out_required", "identifier_defaults_valid", "keys_spellable"]
 
 
 # --------------------------------------------------------------------------------------------
@@ -722,6 +739,8 @@ def evaluate(ctx, it, results, answers, orc, targets, breaks, spec):
                  {"variant": v["name"], "case": case, "impl": brief(o)})
         elif o["kind"] == "app" and o["code"] not in (141, 2):
             fail("config:undocumented-code", f"configure refused with code {o['code']}", {"variant": v["name"], "case": case, "impl": brief(o)})
+        elif (case.get("file") or {}).get("missing") and not (o["kind"] == "app" and o["code"] == 2):
+            fail("config:missing-file-not-reported", "a configuration file that does not exist is not reported as file-not-found (2)", {"variant": v["name"], "case": case, "impl": brief(o)})
         elif o["kind"] == "app" and o["code"] == 2 and not (case.get("file") or {}).get("missing"):
             fail("config:file-not-found-misreported", "file-not-found (2) reported although the file exists", {"variant": v["name"], "case": case, "impl": brief(o)})
 
